@@ -264,6 +264,7 @@ def _initialised(ctx, module, path, alloc: _Alloc, upto: int):
             info["iters"].append({"index": idx, "stored": False})
         elif step.kind == "loopexit" and id(step.node) in loops:
             loops[id(step.node)]["exit"] = step.data
+            loops[id(step.node)]["exit_index"] = idx
         elif step.kind == "loopexit" and isinstance(step.node, ast.For):
             loops[id(step.node)] = {"iters": [], "exit": step.data,
                                     "iter_text": _txt(step.expand(step.node.iter))}
@@ -323,6 +324,8 @@ def _initialised(ctx, module, path, alloc: _Alloc, upto: int):
         if source != alloc.text and not (alloc.source is not None and source == alloc.source):
             continue
         iters = info["iters"]
+        if info.get("exit_index") is not None and info["exit_index"] < alloc.index:
+            continue  # this loop over the keys ran to completion before the buffer existed (an earlier pass)
         if iters and iters[0]["index"] < alloc.index:
             nxt = iters[1]["index"] if len(iters) > 1 else upto
             if not alloc.index < nxt:
